@@ -463,6 +463,22 @@ func returnNonNegAt(at *ssa.BasicBlock, ret *ssa.Return, v ssa.Value, nonneg fun
 			}
 		}
 	}
+	// the single result of a same-module helper (a method of a small carry / accumulator type): every return of the
+	// helper must be non-negative under its own guards
+	if call, ok := v.(*ssa.Call); ok {
+		if t := an.Callee(call); t != nil && t.Blocks != nil && core.InModule(t) && t != ret.Parent() && t.Signature.Results().Len() == 1 {
+			rets := an.Returns(t)
+			all := len(rets) > 0
+			for _, hr := range rets {
+				if ok, _ := returnNonNeg(hr, hr.Results[0], nil); !ok {
+					all = false
+				}
+			}
+			if all {
+				return true, "every return of helper " + t.Name() + " is non-negative"
+			}
+		}
+	}
 	if k, ok := v.(*ssa.Const); ok && k.Value != nil {
 		if k.Int64() >= 0 {
 			return true, "constant " + k.Value.String()
@@ -497,6 +513,21 @@ func returnNonNegAt(at *ssa.BasicBlock, ret *ssa.Return, v ssa.Value, nonneg fun
 				}
 			}
 			if an.IsFunc(an.Callee(call), "math", "Floor") || an.IsFunc(an.Callee(call), "math", "Round") || an.IsFunc(an.Callee(call), "math", "Ceil") {
+				// monotone: a lower bound k ≥ 0 of the argument on this path carries over
+				for _, g := range an.GuardsOf(at) {
+					bo, ok := g.Cond.(*ssa.BinOp)
+					if !ok {
+						continue
+					}
+					k, isK := bo.Y.(*ssa.Const)
+					if !isK || k.Value == nil {
+						continue
+					}
+					lower := (bo.Op == token.LSS && !g.Polarity) || (bo.Op == token.GEQ && g.Polarity) || (bo.Op == token.GTR && g.Polarity) || (bo.Op == token.LEQ && !g.Polarity)
+					if lower && k.Float64() >= 0 && sameCellLoad(bo.X, call.Call.Args[0]) {
+						return true, "int(" + an.Callee(call).Name() + "(x)) with x ≥ " + k.Value.String() + " on this path"
+					}
+				}
 				if nonneg != nil {
 					if ok, why := nonneg(call.Call.Args[0]); ok {
 						return true, "int(" + an.Callee(call).Name() + "(x)) with x ≥ 0: " + why
